@@ -8,6 +8,10 @@ import subprocess
 import tempfile
 
 
+RUN_TIMEOUT = 40      # seconds for one batch (50 methods x 8 calls take ~1 s)
+CLASS_TIMEOUT = 15    # seconds for the 8 calls of one method when the batch did not finish
+
+
 def _lit(v, wide):
     return ("%dL" % v) if wide else str(v)
 
@@ -17,6 +21,8 @@ def category(msg):
         return "symbol"
     if "possible lossy conversion" in msg:
         return "lossy"
+    if msg.startswith("unreachable statement"):
+        return "unreach"
     if "might not have been initialized" in msg:
         return "uninit"
     if "might already have been assigned" in msg or "already defined" in msg:
@@ -64,19 +70,39 @@ def compile_and_run(sources, calls, package="p"):
                     drv.append('try { System.out.println("%s=" + %s); } catch (ArithmeticException e) { System.out.println("%s=exc"); } '
                                'catch (Throwable e) { System.out.println("%s=throws " + e.getClass().getName()); }' % (key, call, key, key))
                 drv.append("}")
-            drv.append("public static void main(String[] a) {" + "".join("r_%s();" % c for c in good) + "}}")
+            drv.append("public static void main(String[] a) { if (a.length == 0) {" + "".join("r_%s();" % c for c in good) + "} else switch (a[0]) {"
+                       + "".join('case "%s": r_%s(); break;' % (c, c) for c in good) + "}}}")
             with open(os.path.join(work, package, "Driver.java"), "w") as f:
                 f.write("\n".join(drv))
             r = subprocess.run(["javac", "-J-XX:+UseSerialGC", "-J-XX:TieredStopAtLevel=1", "-nowarn", "-cp", os.path.join(work, "out"), "-d", os.path.join(work, "out"),
                                 os.path.join(work, package, "Driver.java")], capture_output=True, text=True, timeout=300)
             if r.returncode != 0:
                 return dict(errors), {}, "driver does not compile: " + r.stderr[:600]
-            r = subprocess.run(["java", "-XX:+UseSerialGC", "-XX:TieredStopAtLevel=1", "-Xss4m", "-cp", os.path.join(work, "out"), "%s.Driver" % package], capture_output=True, text=True, timeout=300)
-            for line in r.stdout.splitlines():
-                if "=" in line:
-                    k, v = line.split("=", 1)
-                    results[k] = v
-            log = r.stderr[:500]
+            java = ["java", "-XX:+UseSerialGC", "-XX:TieredStopAtLevel=1", "-Xss4m", "-cp", os.path.join(work, "out"), "%s.Driver" % package]
+
+            def collect(out):
+                for line in (out or "").splitlines():
+                    if "=" in line:
+                        k, v = line.split("=", 1)
+                        results[k] = v
+            try:
+                r = subprocess.run(java, capture_output=True, text=True, timeout=RUN_TIMEOUT)
+                collect(r.stdout)
+                log = r.stderr[:500]
+            except subprocess.TimeoutExpired:
+                # some method does not terminate (the reference interpreter did): run class by class, so that only the calls of
+                # the looping method are reported (as 'timeout')
+                results.clear()
+                for c in good:
+                    try:
+                        r = subprocess.run(java + [c], capture_output=True, text=True, timeout=CLASS_TIMEOUT)
+                        collect(r.stdout)
+                    except subprocess.TimeoutExpired as e:
+                        out = e.stdout.decode("utf-8", "replace") if isinstance(e.stdout, bytes) else e.stdout
+                        collect(out)
+                        for key, _, _, _ in calls.get(c, []):
+                            results.setdefault(key, "timeout")
+                        log += "%s: no result after %ds; " % (c, CLASS_TIMEOUT)
         return dict(errors), results, log
     finally:
         shutil.rmtree(work, ignore_errors=True)
